@@ -9,6 +9,7 @@ package main
 // reasoned table below.
 
 import (
+	"go/constant"
 	"fmt"
 	"go/ast"
 	"go/token"
@@ -162,7 +163,21 @@ func hasReader(v ssa.Value) bool {
 		return false
 	}
 	for _, r := range *v.Referrers() {
-		if _, dbg := r.(*ssa.DebugRef); !dbg {
+		if _, dbg := r.(*ssa.DebugRef); dbg {
+			continue
+		}
+		if r.Block() != nil && constantlyDead(r.Block()) {
+			continue // a reader that a constant condition keeps from ever running reads nothing
+		}
+		return true
+	}
+	return false
+}
+
+// constantlyDead: the block is reached only through the side of a branch that its constant condition never takes.
+func constantlyDead(b *ssa.BasicBlock) bool {
+	for _, dc := range dominatingConds(b) {
+		if k, ok := dc.cond.(*ssa.Const); ok && k.Value != nil && k.Value.Kind() == constant.Bool && constant.BoolVal(k.Value) != dc.truth {
 			return true
 		}
 	}
